@@ -48,13 +48,11 @@ func (l StringLocation) TypeID(memoryGauge MemoryGauge, qualifiedIdentifier stri
 }
 
 func (l StringLocation) QualifiedIdentifier(typeID TypeID) string {
-	pieces := strings.SplitN(string(typeID), ".", 3)
-
-	if len(pieces) < 3 {
-		return ""
-	}
-
-	return pieces[2]
+	return idLocationQualifiedIdentifier(
+		StringLocationPrefix,
+		string(l),
+		typeID,
+	)
 }
 
 func (l StringLocation) String() string {
